@@ -32,7 +32,7 @@ void h_verify_commit(void) {
         __CPROVER_assert(g_ec_data == data32 && g_ec_size == 32 && g_ec_hctx == &ctx.hash_ctx, "C15 verify_commit: commits to data32[0..32) with the context's hash context");
         if (g_ec_v0 == 0) __CPROVER_assert(ret == 0, "C15 verify_commit: commitment failure => 0");
         else {
-            X = fmodp(&g_ec_c0.x);
+            X = fmodp1(&g_ec_c0.x);   /* a successful ec_commit returns the output of ge_set_gej: magnitude 1 (asserted in C15.ec_commit) */
             __CPROVER_assert(ret == (rv == (X >= n ? X - n : X)), "C15 verify_commit: ret = (sig.r == x(commitment) mod n)");
             if (ret == 1 && X >= n) REACH("verify_commit accepts with x >= n");
             if (ret == 1 && X < n) REACH("verify_commit accepts");
